@@ -495,4 +495,24 @@ def run_hidden_dep(p: Project, clause: str, floor: int) -> RuleResult:
             good = [x for n, x in deps if n in skip_reach and any(isinstance(a, ast.Attribute) and isinstance(a.value, ast.Name) and a.value.id == sn and a.attr == src for a in ast.walk(ast.parse(ast.unparse(du.expand(x.args[0], n)), mode="eval")))]
             if not good:
                 rr.add(finding("HIDDEN-DEP", fi, call0, f"render() can finish without `{norm(call0, 50)}` (the child from {sn}.{src} is given no room and skipped) and no set_depends() naming {sn}.{src} follows: the hidden child was consulted for the layout but is not a dependency of the cached canvas, so when it changes (gains rows / columns) this widget and its ancestors keep serving the canvas without it", construct=f"child from {src} can be skipped without set_depends"))
+                continue
+            # a declaration made under a *count* test ("fewer canvases than children") counts the children on the
+            # collection itself: len(self.<src>) - a derived list (the widths that fit) is already shorter when
+            # children are dropped, and the test would miss exactly those
+            from .exc import ExcEngine
+
+            for dn, x in [(n, x) for n, x in deps if x in good]:
+                counts = []
+                for t in cfg.nodes:
+                    if t.kind != "test" or dn in ExcEngine._reach_without_edge(cfg, t, "T"):
+                        continue
+                    for c in ast.walk(t.ast):
+                        if isinstance(c, ast.Compare) and len(c.ops) == 1 and isinstance(c.ops[0], (ast.Lt, ast.NotEq, ast.Gt)) and all(isinstance(s_, ast.Call) and isinstance(s_.func, ast.Name) and s_.func.id == "len" for s_ in (c.left, c.comparators[0])):
+                            counts.append((t, c))
+                for t, c in counts:
+                    sides = [ast.unparse(du.expand(s_.args[0], t)) for s_ in (c.left, c.comparators[0])]
+                    full = any(f"{sn}.{src}" in sd or f"{sn}._{src}" in sd for sd in sides)
+                    rr.inst(f"{ident}: count test", True, {"test": norm(c, 60), "counts_the_collection_itself": full})
+                    if not full:
+                        rr.add(finding("HIDDEN-DEP", fi, c, f"the dependency on hidden children is declared under `{norm(c, 60)}`, which does not count {sn}.{src} itself: a derived list is already shortened when children are dropped for lack of room, so for exactly those children the test is false and the cached canvas does not depend on them", construct=f"hidden-child test does not count {src}"))
     return rr
